@@ -99,19 +99,24 @@ def _preempt_histories(n_rounds, rng):
     finishes after the victim).  Returns list of per-thread histories."""
     from geckolib.driver import GeckoUdpSocket
     import geckolib.driver.udp_socket as mod
+    import geckolib.spa as spamod
+    from ..w2 import Descriptor
 
-    code_files = {mod.__file__}
+    # the socket class itself, and the class the blocking client actually instantiates (a subclass: whatever it
+    # overrides is part of the call)
+    code_files = {mod.__file__, spamod.__file__}
     logs = []
     # how many line events does one call have?  measure once.
-    for kindpair in (("P", "P"), ("C", "C"), ("P", "C"), ("C", "P")):
+    for kindpair, mk in [(kp, m) for kp in (("P", "P"), ("C", "C"), ("P", "C"), ("C", "P"))
+                         for m in (GeckoUdpSocket, lambda: spamod.GeckoSpa(Descriptor()))]:
         for warm in (0, 189, 62, 254):
-            sock = GeckoUdpSocket()
+            sock = mk()
             hist = [[], []]
             for _ in range(warm):
                 hist[0].append({"kind": kindpair[0], "ret": sock.get_and_increment_sequence_counter(kindpair[0] == "C")})
                 if kindpair[1] != kindpair[0]:
                     hist[0].append({"kind": kindpair[1], "ret": sock.get_and_increment_sequence_counter(kindpair[1] == "C")})
-            for point in range(0, 14):
+            for point in range(0, 22):
                 go = threading.Event()
                 done = threading.Event()
 
@@ -146,17 +151,19 @@ def _preempt_histories(n_rounds, rng):
                 if th.is_alive():
                     raise env.MachineryError("intruder thread stuck")
             logs.append({"thr": hist, "n": len(hist[0]) + len(hist[1]),
-                         "scenario": f"preempt {kindpair} warm={warm}"})
+                         "scenario": f"preempt {type(sock).__name__} {kindpair} warm={warm}"})
     return logs
 
 
-def _stress_histories(nthreads, ncalls, rng):
+def _stress_histories(nthreads, ncalls, rng, spa=False):
     from geckolib.driver import GeckoUdpSocket
+    import geckolib.spa as spamod
+    from ..w2 import Descriptor
 
     old = sys.getswitchinterval()
     sys.setswitchinterval(1e-6)
     try:
-        sock = GeckoUdpSocket()
+        sock = spamod.GeckoSpa(Descriptor()) if spa else GeckoUdpSocket()
         hist = [[] for _ in range(nthreads)]
         plan = [[("C" if rng.random() < 0.3 else "P") for _ in range(ncalls)] for _ in range(nthreads)]
         start = threading.Barrier(nthreads)
@@ -214,7 +221,9 @@ def run(ctx):
     logs = _preempt_histories(0, rng)
     if ctx.quick:
         logs.append(_stress_histories(4, 1500, rng))
+        logs.append(_stress_histories(4, 1500, rng, spa=True))
     else:
+        logs.append(_stress_histories(8, 5000, rng, spa=True))
         for _ in range(6):
             logs.append(_stress_histories(8, 5000, rng))
     by_nt = collections.defaultdict(list)
